@@ -33,6 +33,7 @@ EXTENDS Integers, Sequences, FiniteSets, TLC
 
 CONSTANTS MaxTasks, MaxSend, WithCloser,
           WithOnConnect,   \* an OnConnect callback is configured (else onConnect() only sets the state word)
+          WithOnDisconnect,\* an OnDisconnect callback is configured (else onDisconnect() returns at once)
           HandlerCloses,   \* the handler consumes what is buffered and then calls Close itself
           Dev_NoConnRecheck, Dev_NoInputRecheck, Dev_NoHupTask, Dev_HupLockTwice
 
@@ -121,13 +122,13 @@ TStep(i) ==
       [] t.pc = "t_act1" ->         \* !IsActive() && changeState(connected, disconnected): help to run OnDisconnect
             /\ TSet(i, IF sh.closing # 0 THEN "t_cs2" ELSE "t_ulc") /\ UNCHANGED <<sh, hist, nt>>
       [] t.pc = "t_cs2" ->
-            /\ IF sh.st = 1 THEN sh' = [sh EXCEPT !.st = 2] /\ hist' = Disc(hist) ELSE UNCHANGED <<sh, hist>>
+            /\ IF sh.st = 1 THEN sh' = [sh EXCEPT !.st = 2] /\ hist' = (IF WithOnDisconnect THEN Disc(hist) ELSE hist) ELSE UNCHANGED <<sh, hist>>
             /\ TSet(i, "t_ulc") /\ UNCHANGED nt
       [] t.pc = "t_ulc" ->          \* unlock(connecting)
             /\ sh' = [sh EXCEPT !.connecting = 0]
             /\ TSet(i, IF Dev_NoConnRecheck THEN "t_s_len" ELSE "t_act2") /\ UNCHANGED <<hist, nt>>
       [] t.pc = "t_act2" ->         \* the peer may have closed after the first check: onDisconnect()
-            /\ TSet(i, IF sh.closing # 0 THEN "t_od_gs" ELSE "t_s_len") /\ UNCHANGED <<sh, hist, nt>>
+            /\ TSet(i, IF sh.closing # 0 /\ WithOnDisconnect THEN "t_od_gs" ELSE "t_s_len") /\ UNCHANGED <<sh, hist, nt>>
       [] t.pc = "t_od_gs" ->        \* getState() != none && lock(connecting)
             /\ TSet(i, IF sh.st # 0 THEN "t_od_lk" ELSE "t_s_len") /\ UNCHANGED <<sh, hist, nt>>
       [] t.pc = "t_od_lk" ->
@@ -250,7 +251,7 @@ HStep ==
                                  ELSE UNCHANGED <<sh, hist>> /\ HSet("end")
             /\ UNCHANGED <<T, nt>>
       [] H.pc = "h_tr" -> /\ HSet("h_tw") /\ UNCHANGED <<sh, T, nt, hist>>
-      [] H.pc = "h_tw" -> /\ HSet(IF WithOnConnect THEN "h_gs" ELSE "h_ss") /\ UNCHANGED <<sh, T, nt, hist>>
+      [] H.pc = "h_tw" -> /\ HSet(IF ~WithOnDisconnect THEN AfterDisc ELSE IF WithOnConnect THEN "h_gs" ELSE "h_ss") /\ UNCHANGED <<sh, T, nt, hist>>
       [] H.pc = "h_ss" ->           \* onDisconnect without OnConnect: setState(disconnected); the callback
             /\ sh' = [sh EXCEPT !.st = 2] /\ hist' = Disc(hist) /\ HSet(AfterDisc) /\ UNCHANGED <<T, nt>>
       [] H.pc = "h_gs" ->           \* onDisconnect: getState() != none && lock(connecting)
@@ -362,7 +363,7 @@ Quiescent == /\ \A i \in 1 .. MaxTasks : Idle(T[i].pc)
 \* a closed connection has run its close callbacks once it is quiescent; the keys are released or held by the finished teardown
 NoLeak == (Quiescent /\ sh.closing # 0) => hist.ccn = 1
 \* the peer closed a connection whose OnConnect has run: OnDisconnect ran exactly once
-DisconnectRan == (Quiescent /\ hist.pcl = 1 /\ hist.conn = 2) => hist.od = 1
+DisconnectRan == (Quiescent /\ hist.pcl = 1 /\ hist.conn = 2 /\ WithOnDisconnect) => hist.od = 1
 \* nothing is left unread when everything is over and the peer had closed (the handler consumes all it is offered)
 AllOffered == (Quiescent /\ hist.ccn = 1 /\ sh.closing = 2) => sh.inlen = 0
 \* a task budget that is too small would hide behaviours
